@@ -471,7 +471,7 @@ def main(chk: core.Check) -> int:
     tsession.regenerate(chk)      # Generated/RdbSessions.lean from today's /repo, before the theorems are re-checked against it
     c07_file_gen.regenerate(chk)  # T-file: Generated/JournalFileMethods.lean (append_logs / read_logs / lock classes of journal/_file.py)
     if not getattr(chk, "no_prove", False):
-        chk.prove(["OptunaVerif.Props.C05", "OptunaVerif.Props.C05Txn", c07_file_gen.MODULE])
+        chk.prove(["OptunaVerif.Props.C05", "OptunaVerif.Props.C05Txn", c07_file_gen.MODULE, "OptunaVerif.Props.C05C07Bridge", "OptunaVerif.Props.C05C07BridgeGen"])
         c07_file_gen.explain_proof_failure(chk)
     quick = chk.tier == "quick"
     import time as _t
